@@ -116,8 +116,9 @@ def big_endian_digits_to_int(digits: Iterable[int], *, base: int | Iterable[int]
     for d, b in zip(digits, base):
         if not (0 <= d < b):
             raise ValueError(f'Out of range digit. Digit: {d!r}, base: {b!r}')
-        result *= b
-        result += d
+        # Use Python ints so that fixed-width numpy scalars (e.g. rows of measurement arrays) cannot overflow.
+        result *= int(b)
+        result += int(d)
     return result
 
 
